@@ -80,6 +80,18 @@ Theorem C17_fifo_general :
 Proof. exact fifo_general. Qed.
 Print Assumptions C17_fifo_general.
 
+(* Per-caller order.  In the model an enqueue is one atomic operation: Send returns only when its message is in the
+   queue or has been dropped after the timeout (outChan.enqueue blocks the caller on a full queue); it never returns
+   while the message is neither.  Therefore, for every run, what the writer has taken followed by what waits is the
+   list of accepted enqueue operations in the order in which they were performed -- for one caller: the order of
+   its Send calls.  (A variant that hands a blocked enqueue to a background goroutine is not this machine: the
+   "burst" scenario of the harness sends more messages than the queue holds and checks strict order.) *)
+Theorem C17_call_order :
+  forall c ops d, let r := run c q_init ops in
+  taken (fst r d) ++ d_queue (fst r d) = enq_accepted d ops (snd r).
+Proof. exact call_order. Qed.
+Print Assumptions C17_call_order.
+
 (* Isolation: operations on destination d never change queue or connection state of d' <> d; a destination ends in
    the state it reaches when the operations on all other destinations are deleted from the run. *)
 Theorem C17_isolation :
